@@ -223,16 +223,16 @@ def _known_inputs(v):
 
 FUZZ = Bounded(
     "decoder_fuzz_and_single_byte_corruptions", "codec_fuzz",
-    {"mode": "c10", "random_buffers": 1500, "position_step": 2, "live_every": 9, "traffic_frames": 110},
-    {"mode": "c10", "random_buffers": 20000, "position_step": 1, "live_every": 3, "traffic_frames": 110},
-    "the real Codec.decode (silent mode) and the real socket_read_task: 1500 (thorough 20000) random byte strings over "
+    {"mode": "c10", "random_buffers": 1500, "position_step": 2, "live_every": 9, "traffic_frames": 110, "byte_step": 4},
+    {"mode": "c10", "random_buffers": 300000, "position_step": 1, "live_every": 1, "traffic_frames": 110, "byte_step": 1},
+    "the real Codec.decode (silent mode) and the real socket_read_task: 1500 (thorough 300000) random byte strings over "
     "three alphabets up to 120 bytes, 30 grammar-aware malformed frames (non-numeric / negative / overlong BodyLength, "
     "non-numeric CheckSum, non-numeric / empty / non-canonical tags, missing '=', empty field, wrong order, truncated, "
     "wrong BeginString), every single-byte substitution (8 replacement bytes), deletion and insertion (5 bytes) at every "
     "2nd (thorough: every) position of a corpus of 6 valid frames (session, application, custom type, group) - each "
     "alone (never raises, 0 <= consumed <= len, repeated decoding terminates, a returned message carries a frame whose "
     "BodyLength and CheckSum an independent parser confirms, a corrupted frame is never returned) and followed by 110 "
-    "valid frames (the last ones are decoded; every 9th (3rd) case through the real reader task in reads of 512 bytes)",
+    "valid frames (the last ones are decoded; every 9th (thorough: every) case through the real reader task in reads of 512 bytes)",
     known_inputs=_known_inputs)
 
 TASKS = [
